@@ -12,7 +12,9 @@
   obstacle, lanelet (bounds, line markings, predecessor / successor / adjacent, stop line, types, users, sign / light
   references), traffic sign, traffic light (cycle), intersection (incomings, crossings), planning problem, and the document
   body (everything below `<commonRoad>` except `location` and `scenarioTags`, which the body codec treats as foreign context).
-  Not modelled: the root attributes, `location`, `scenarioTags`, 3-D points, the 2018b reader branch, lanelet assignment.
+  and the whole file: root attributes, `location` (geo transformation, environment), `scenarioTags`, body.
+  Points carry an optional z (written for lanelet bounds and state positions, dropped by the writer elsewhere).
+  Not modelled: the 2018b reader branch, lanelet assignment, the byte level.
 -/
 import CRModel.Codec
 
@@ -52,13 +54,26 @@ def lightDirections : List String := ["right", "straight", "left", "leftStraight
 
 /-! ## points and shapes -/
 
+/-- a point: x, y and, for 3-D geometry, z -/
 structure Pt where
   x : Real
   y : Real
+  z : Option Real
 
+/-- children of a point element as `PointFactory` reads them (file_reader_xml.py:1629-1638): x, y, optional z -/
+def ptKidsC (P : Params) : Codec (Real × Real × Option Real) :=
+  Codec.pair (Codec.child "x" (ECodec.ofText (Prim.dec P)))
+    (Codec.pair (Codec.child "y" (ECodec.ofText (Prim.dec P))) (Codec.optional "z" (ECodec.ofText (Prim.dec P))))
+
+/-- a point written with all its coordinates: `Point.create_from_numpy_array(...).create_node()` (file_writer_xml.py:1037-1066),
+    used for lanelet bounds and the exact position of a state -/
+def pt3E (P : Params) : ECodec Pt :=
+  ECodec.ofKids ((ptKidsC P).iso (fun p => (p.x, p.y, p.z)) (fun a => ⟨a.1, a.2.1, a.2.2⟩))
+
+/-- a point of which the writer only writes x and y (`Point(p[0], p[1])`: polygon vertices, stop line, sign / light position;
+    `center[0]`, `center[1]` of a rectangle / circle); the reader would still take a z -/
 def ptE (P : Params) : ECodec Pt :=
-  ECodec.ofKids ((Codec.pair (Codec.child "x" (ECodec.ofText (Prim.dec P))) (Codec.child "y" (ECodec.ofText (Prim.dec P)))).iso
-    (fun p => (p.x, p.y)) (fun a => ⟨a.1, a.2⟩))
+  ECodec.ofKids ((ptKidsC P).iso (fun p => (p.x, p.y, (none : Option Real))) (fun a => ⟨a.1, a.2.1, a.2.2⟩))
 
 inductive Shape1 where
   | rect (l w o : Real) (c : Pt)
@@ -68,12 +83,18 @@ inductive Shape1 where
 /-- `x != 0.0` on a float, seen through its repr -/
 def isZeroRepr (s : Real) : Bool := s == "0.0" || s == "-0.0" || s == "0" || s == "-0"
 
-def zeroPt : Pt := ⟨"0.0", "0.0"⟩
+def zeroPt : Pt := ⟨"0.0", "0.0", none⟩
+
+/-- `not np.any(np.asarray(center) != 0.0)` -/
+def isOrigin (c : Pt) : Bool :=
+  isZeroRepr c.x && isZeroRepr c.y && (match c.z with
+    | none => true
+    | some v => isZeroRepr v)
 
 /-- the `center` child: always written for static shapes; for the shape of a dynamic obstacle only if it is not the origin
     (file_writer_xml.py RectangleXMLNode / CircleXMLNode); absent = origin (file_reader_xml.py:1372-1375, 1385-1388) -/
 def centerC (P : Params) (dyn : Bool) : Codec Pt :=
-  Codec.optChild "center" (ptE P) (fun c => !dyn || !(isZeroRepr c.x && isZeroRepr c.y)) zeroPt
+  Codec.optChild "center" (ptE P) (fun c => !dyn || !isOrigin c) zeroPt
 
 /-- the `orientation` child of a rectangle, written with `decimal_to_str` (all digits, plain notation) -/
 def orientC (P : Params) (dyn : Bool) : Codec Real :=
@@ -241,7 +262,7 @@ def propName (tag : String) : String :=
 
 /-- children of `<position>`: `create_state_node` (file_writer_xml.py:944-951), `_write_goal_position` (868-899) -/
 def encPos (P : Params) : Pos → List Xml
-  | .point p => [(ptE P).el "point" p]
+  | .point p => [(pt3E P).el "point" p]
   | .region s => (shapeC P false).enc s
   | .lanelets ids => ids.map (refE.el "lanelet")
 
@@ -250,7 +271,7 @@ def encPos (P : Params) : Pos → List Xml
 def decPos (P : Params) (goal : Bool) (kids : List Xml) : Option Pos :=
   match find "point" kids with
   | some x =>
-    match (ptE P).decE x with
+    match (pt3E P).decE x with
     | some p => some (.point p)
     | none => none
   | none =>
@@ -386,7 +407,7 @@ def signalE : ECodec Signal :=
 /-! ## what a state becomes after one write → read -/
 
 def normPos (P : Params) : Pos → Pos
-  | .point p => .point ((ptE P).norm p)
+  | .point p => .point ((pt3E P).norm p)
   | .region s => .region ((shapeC P false).norm s)
   | .lanelets ids => .lanelets ids
 
@@ -531,7 +552,7 @@ structure Bound where
 /-- `<leftBound>` / `<rightBound>`: the line marking is written unless it is `unknown`, absent = `unknown`
     (file_writer_xml.py:410-437, file_reader_xml.py:740-753) -/
 def boundE (P : Params) : ECodec Bound :=
-  ECodec.ofKids ((Codec.pair (Codec.many "point" (ptE P))
+  ECodec.ofKids ((Codec.pair (Codec.many "point" (pt3E P))
     (Codec.optChild "lineMarking" (ECodec.ofText (Prim.enum lineMarkings)) (fun m => m != "unknown") "unknown")).iso
     (fun b => (b.pts, b.marking)) (fun a => ⟨a.1, a.2⟩))
 
@@ -782,5 +803,186 @@ def encodeDoc (cfg : Cfg) (d : Doc) : List Xml := (docC cfg).enc d
 def decodeDoc (cfg : Cfg) (kids : List Xml) : Option Doc := (docC cfg).dec kids
 
 def normDoc (cfg : Cfg) (d : Doc) : Doc := (docC cfg).norm d
+
+/-! ## the whole file: root attributes, location, scenario tags, body -/
+
+def timesOfDay : List String := ["night", "sunset", "afternoon", "noon", "morning", "unknown"]
+def weathers : List String := ["clear", "light_rain", "mid_rain", "heavy_rain", "fog", "snow", "hail", "cloudy", "unknown"]
+def undergrounds : List String := ["wet", "clean", "dirty", "damaged", "snow", "ice", "unknown"]
+
+/-- `Tag` (scenario.py), in declaration order — the order in which `TagsFactory` probes them -/
+def allTags : List String :=
+  ["interstate", "urban", "highway", "comfort", "critical", "evasive", "cut_in", "illegal_cutin", "intersection", "lane_change",
+   "lane_following", "merging_lanes", "multi_lane", "oncoming_traffic", "no_oncoming_traffic", "parallel_lanes", "race_track",
+   "roundabout", "rural", "simulated", "single_lane", "slip_road", "speed_limit", "traffic_jam", "turn_left", "turn_right",
+   "two_lane", "emergency_braking"]
+
+def digitChar (n : Nat) : Char := Char.ofNat (48 + n)
+
+/-- `f"{n:02d}"` for n < 100 -/
+def fmt2 (n : Nat) : List Char := [digitChar (n / 10), digitChar (n % 10)]
+
+/-- `int(two characters)` for two decimal digits (anything else: the model says it raises) -/
+def parse2 (c1 c2 : Char) : Option Nat :=
+  if c1.isDigit && c2.isDigit then some ((c1.toNat - 48) * 10 + (c2.toNat - 48)) else none
+
+/-- the `<time>` of an environment: `f"{hours:02d}:{minutes:02d}:00"` (file_writer_xml.py:385) /
+    `int(text[0:2])`, `int(text[3:5])` (file_reader_xml.py `TimeFactory`) -/
+def Prim.clock : Prim (Nat × Nat) :=
+  ⟨fun t => String.ofList (fmt2 t.1 ++ ':' :: fmt2 t.2 ++ [':', '0', '0']),
+   fun s => match s.toList with
+     | c1 :: c2 :: _ :: c4 :: c5 :: _ =>
+       match parse2 c1 c2, parse2 c4 c5 with
+       | some h, some m => some (h, m)
+       | _, _ => none
+     | _ => none,
+   id, fun t => t.1 < 100 ∧ t.2 < 100⟩
+
+structure AddTransformation where
+  x : Real
+  y : Real
+  rot : Real
+  scaling : Real
+
+structure GeoTransformation where
+  ref : String
+  /-- the writer always emits `<additionalTransformation>` (an unset number would be written as the text `None`, which the
+      reader cannot parse: outside `ok`); the reader accepts its absence -/
+  add : Option AddTransformation
+
+def addTransformationE (P : Params) : ECodec AddTransformation :=
+  ECodec.ofKids ((Codec.pair (Codec.child "xTranslation" (ECodec.ofText (Prim.decPlain P)))
+    (Codec.pair (Codec.child "yTranslation" (ECodec.ofText (Prim.decPlain P)))
+      (Codec.pair (Codec.child "zRotation" (ECodec.ofText (Prim.decPlain P))) (Codec.child "scaling" (ECodec.ofText (Prim.decPlain P)))))).iso
+    (fun a => (a.x, a.y, a.rot, a.scaling)) (fun t => ⟨t.1, t.2.1, t.2.2.1, t.2.2.2⟩))
+
+/-- `GeoTransformationXMLNode` (file_writer_xml.py:341-366) / `GeoTransformationFactory` -/
+def geoE (P : Params) : ECodec GeoTransformation :=
+  (ECodec.ofKids (Codec.pair (Codec.child "geoReference" (ECodec.ofText Prim.str))
+    (Codec.optional "additionalTransformation" (addTransformationE P)))).pmap
+    (fun g => (g.ref, g.add)) (fun t => some ⟨t.1, t.2⟩) (fun g => ⟨g.ref, g.add.map (addTransformationE P).norm⟩) (fun g => g.add.isSome)
+
+structure Environment where
+  hours : Nat
+  minutes : Nat
+  timeOfDay : String
+  weather : String
+  underground : String
+
+/-- `EnvironmentXMLNode` (file_writer_xml.py:369-393; its three `… .value is not Enum.UNKNOWN` tests compare a string with an
+    enum member and are always true, so all four children are always written) / `EnvironmentFactory` (needs all four) -/
+def envE : ECodec Environment :=
+  ECodec.ofKids ((Codec.pair (Codec.child "time" (ECodec.ofText Prim.clock))
+    (Codec.pair (Codec.child "timeOfDay" (ECodec.ofText (Prim.enum timesOfDay)))
+      (Codec.pair (Codec.child "weather" (ECodec.ofText (Prim.enum weathers)))
+        (Codec.child "underground" (ECodec.ofText (Prim.enum undergrounds)))))).iso
+    (fun e => ((e.hours, e.minutes), e.timeOfDay, e.weather, e.underground)) (fun t => ⟨t.1.1, t.1.2, t.2.1, t.2.2.1, t.2.2.2⟩))
+
+structure Location where
+  geoNameId : Int
+  lat : Real
+  lon : Real
+  geo : Option GeoTransformation
+  env : Option Environment
+
+def locationE (P : Params) : ECodec Location :=
+  ECodec.ofKids ((Codec.pair (Codec.child "geoNameId" (ECodec.ofText Prim.int))
+    (Codec.pair (Codec.child "gpsLatitude" (ECodec.ofText (Prim.decPlain P)))
+      (Codec.pair (Codec.child "gpsLongitude" (ECodec.ofText (Prim.decPlain P)))
+        (Codec.pair (Codec.optional "geoTransformation" (geoE P)) (Codec.optional "environment" envE))))).iso
+    (fun l => (l.geoNameId, l.lat, l.lon, l.geo, l.env)) (fun t => ⟨t.1, t.2.1, t.2.2.1, t.2.2.2.1, t.2.2.2.2⟩))
+
+/-- `Location()` : geo_name_id=-999, gps 999 / 999 (integers: `decimal_to_str(999)` is "999") -/
+def defaultLocation : Location := ⟨-999, "999", "999", none, none⟩
+
+/-- `<location>`: a scenario without location is written with the default location (file_writer_xml.py:184-188);
+    an absent element reads as `None` -/
+def locationC (P : Params) : Codec (Option Location) :=
+  (Codec.optional "location" (locationE P)).iso
+    (fun o => match o with
+      | some l => some l
+      | none => some defaultLocation) id
+
+/-- `<scenarioTags>`: one empty child per tag (`TagXMLNode`); `TagsFactory` probes every member of `Tag` in declaration order
+    and dereferences `find("scenarioTags")` -/
+def tagsC : Codec (List String) :=
+  ⟨["scenarioTags"], fun l => [node "scenarioTags" (l.map (fun t => leaf t ""))],
+   fun kids => match find "scenarioTags" kids with
+     | some x => some (allTags.filter (fun t => (find t x.kids).isSome))
+     | none => none,
+   fun l => allTags.filter (fun t => l.contains t), fun _ => True⟩
+
+/-- all children of `<commonRoad>` -/
+def fileKidsC (cfg : Cfg) : Codec (Option Location × List String × Doc) :=
+  Codec.pair (locationC cfg.P) (Codec.pair tagsC (docC cfg))
+
+structure Header where
+  dt : Real
+  author : Option String
+  affiliation : Option String
+  source : Option String
+  benchmarkId : String
+
+structure File where
+  header : Header
+  location : Option Location
+  tags : List String
+  body : Doc
+
+/-- parameters of a whole-file round trip: the sign tables of all countries, the supported countries, today's date -/
+structure FileCfg where
+  P : Params
+  classes : List (List String)
+  /-- `SupportedTrafficSignCountry` values -/
+  countries : List String
+  /-- country ↦ (values of `TrafficSignIDCountries[country]`, value of its `MAX_SPEED` member) -/
+  tables : List (String × (List String × Option String))
+  /-- `datetime.datetime.today().strftime("%Y-%m-%d")` -/
+  today : String
+
+/-- `LaneletNetworkFactory._find_country` (file_reader_xml.py:497-512): characters 2..4 of a cooperative id "C-…", else the
+    first three; an unsupported country is Zamunda -/
+def countryOf (countries : List String) (bid : String) : String :=
+  let cs := bid.toList
+  let c := String.ofList (if cs.take 2 == ['C', '-'] then (cs.drop 2).take 3 else cs.take 3)
+  if countries.contains c then c else "ZAM"
+
+def lookupTable (c : String) : List (String × (List String × Option String)) → (List String × Option String)
+  | [] => ([], none)
+  | (k, v) :: r => if k == c then v else lookupTable c r
+
+def FileCfg.cfgFor (fc : FileCfg) (bid : String) : Cfg :=
+  let t := lookupTable (countryOf fc.countries bid) fc.tables
+  ⟨fc.P, fc.classes, t.1, t.2⟩
+
+def optAttr (k : String) (v : Option String) : List (String × String) :=
+  match v with
+  | some s => [(k, s)]
+  | none => []
+
+/-- `_write_header` (file_writer_xml.py:174-188) + the children -/
+def encodeFile (fc : FileCfg) (f : File) : Xml :=
+  ⟨"commonRoad",
+   [("timeStepSize", decimalToStr fc.P f.header.dt), ("commonRoadVersion", "2020a")] ++ optAttr "author" f.header.author ++
+     optAttr "affiliation" f.header.affiliation ++ optAttr "source" f.header.source ++
+     [("benchmarkID", f.header.benchmarkId), ("date", fc.today)],
+   "", (fileKidsC (fc.cfgFor f.header.benchmarkId)).enc (f.location, f.tags, f.body)⟩
+
+/-- `XMLFileReader.open` (file_reader_xml.py:113-196, 2020a branch: any other version is outside this model) -/
+def decodeFile (fc : FileCfg) (x : Xml) : Option File :=
+  match getAttr "commonRoadVersion" x, getAttr "timeStepSize" x, getAttr "benchmarkID" x with
+  | some v, some dt, some bid =>
+    if v == "2020a" then
+      match (fileKidsC (fc.cfgFor bid)).dec x.kids with
+      | some (loc, tags, body) => some ⟨⟨dt, getAttr "author" x, getAttr "affiliation" x, getAttr "source" x, bid⟩, loc, tags, body⟩
+      | none => none
+    else none
+  | _, _, _ => none
+
+def normFile (fc : FileCfg) (f : File) : File :=
+  let n := (fileKidsC (fc.cfgFor f.header.benchmarkId)).norm (f.location, f.tags, f.body)
+  ⟨⟨decimalToStr fc.P f.header.dt, f.header.author, f.header.affiliation, f.header.source, f.header.benchmarkId⟩, n.1, n.2.1, n.2.2⟩
+
+def okFile (fc : FileCfg) (f : File) : Prop := (fileKidsC (fc.cfgFor f.header.benchmarkId)).ok (f.location, f.tags, f.body)
 
 end CR.X
